@@ -2,7 +2,7 @@
 from propslib import comp_scope
 
 PROP = dict(
-    extract=["bopomofo", "syllable"],
+    extract=["bopomofo", "syllable", "trie_format"],
     lean_targets=["Chewing.Props.C11"],
     runs=[dict(bin="codec")],
     scope=comp_scope("codec"),
@@ -10,14 +10,35 @@ PROP = dict(
     exhaustive=False,
     rule="one evaluation = one transcript record: the bytes of TrieBuilder::write for a generated entry set (compared byte for "
          "byte with the model's writer), or a batch of up to 8 lookups / entries() / about() of the real Trie on a file, "
-         "recomputed by the model's reader. distinct = distinct record text",
-    trusted_base=["the `der` crate is modelled for the eight shapes the trie format uses (Model/Der.lean); the model is tied to it "
-                  "by byte-for-byte correspondence only"],
-    assumptions=[],
+         "recomputed by the model's reader. distinct = distinct record text. The harness oracle additionally evaluates the "
+         "C11 statement itself with a reference map on every file (and on the model writer's bytes fed to the real Trie), "
+         "and a separate counted stream of entry sets beyond the 16-bit limits (generator_stats limits_*)",
+    trusted_base=["the `der` crate (0.7) is modelled for the eight shapes the trie format uses (Model/Der.lean) and `slice::sort_by` "
+                  "as a stable insertion sort; both are tied to the code by the byte-for-byte correspondence only",
+                  "the builder arena is modelled as the tree it represents (first-child/next-sibling); arena ids are not observable "
+                  "in the output"],
+    assumptions=["inputs as the Rust types constrain them: strings of Unicode scalar values, non-zero u16 syllables, u32 frequency, "
+                 "optional u64 timestamp; lookups through lookup_all_phrases (first = usize::MAX)",
+                 "the statement is about successful writes (after the F13 fix `write` fails loudly beyond the 16-bit limits and "
+                 "beyond der's 256 MiB Length::MAX); `writes_within_limits` proves success inside the limits",
+                 "leaves that mix single characters with longer phrases: the comparator of `write` is not a total preorder there; "
+                 "the model reproduces std's insertion sort (exact for <= 20 phrases, generated leaves of that kind stay below); "
+                 "the theorems claim an order only for unmixed leaves, as the property does"],
 )
 
 MANIFEST = dict(
-    text="(filled in below)",
-    note="",
-    technique="Lean 4 proof (induction over the builder tree and the BFS write loop) + sampled byte-for-byte correspondence",
+    text="Lean 4 theorem `C11 : C11_full` (Chewing/Props/C11.lean) over an executable byte-level model of TrieBuilder::{insert,write} "
+         "and Trie::{new,lookup_all_phrases (both strategies),entries,about} including the DER shapes of the `der` crate: for all "
+         "metadata and all finite insert sequences, a successful write opens with identical metadata; exact lookups return exactly "
+         "the inserted phrases (re-insert replaces in place) in the documented order and nothing for absent keys; fuzzy prefix "
+         "lookups return exactly the same-length keys matching syllable-wise (C13's starts_with), each once; entries() yields every "
+         "(key, phrase) once; the bytes are a Document of trie.asn1 whose index is the BFS layout (leaf first, children ascending, "
+         "consecutive ranges). Proof by DER round trips, the BFS loop invariant (bfs_layout), refinement of the reader to a walk on "
+         "the builder tree, and the explicit-stack DFS of entries(). `writes_within_limits`: inside the 16-bit/256 MiB limits write "
+         "succeeds. Tie: trie.asn1 / trie.rs constants regenerated every run; byte-for-byte correspondence of writer and reader on "
+         "generated entry sets; oracle = the statement on the real code with a reference map and an independent format parser.",
+    note="Findings repaired in the repository: F13 (`as u16` truncation, write now errors) and the freq range of trie.asn1 (doc). "
+         "Trusted: Lean kernel (propext, Classical.choice, Quot.sound), the translator, the harness and compiled model driver; the "
+         "model of `der`, of `sort_by` and the tree abstraction of the arena are validated by correspondence, not derived from source.",
+    technique="Lean 4 proof (induction over the builder tree, BFS/DFS loop invariants, DER round trips) + sampled byte-for-byte correspondence",
 )
